@@ -41,7 +41,7 @@ func main() {
 	code := func() (code int) {
 		defer func() {
 			if r := recover(); r != nil {
-				rep.Errorf("checker panic: %v", r)
+				rep.Errorf("checker panic: %v\n%s", r, debug.Stack())
 				code = rep.Finish(*verif)
 				if code == 0 {
 					code = 2
